@@ -116,6 +116,19 @@ def check_header(c):
     eq(devs, "placeholder_ids.pack_zero", bytes(he.pack()), R.header({**c, "src": 0, "dst": 0, "seq": 0}, c["pdu_type"], c["dir"], c["seg_meta"], c["dlen"]))
     econf.source_entity_id.value, econf.dest_entity_id.value, econf.transaction_seq_num.value = c["src"], c["dst"], c["seq"]
     eq(devs, "placeholder_ids.pack_after_filled_in_place", bytes(he.pack()), want)
+    # the id fields of a configuration re-declared to the widths of THIS header in place (they were built with other widths), the numbers
+    # assigned again - also when a number is the one the field already holds
+    ow = {1: 2, 2: 4, 4: 8, 8: 1}
+    small = lambda v, w: v & ((1 << (8 * min(w, ow[w]))) - 1)  # noqa: E731 - a number that fits both widths
+    rconf = cf.PduConfig(_G.from_int(ow[c["idw"]], small(c["src"], c["idw"])), _G.from_int(ow[c["idw"]], small(c["dst"], c["idw"])), _G.from_int(ow[c["seqw"]], small(c["seq"], c["seqw"])),
+                         d.TransmissionMode(c["mode"]), d.LargeFileFlag(c["large"]), d.CrcFlag(c["crc"]), d.Direction(c["dir"]), d.SegmentationControl(c["segctrl"]))
+    for fld, num, w in ((rconf.source_entity_id, small(c["src"], c["idw"]), c["idw"]), (rconf.dest_entity_id, small(c["dst"], c["idw"]), c["idw"]), (rconf.transaction_seq_num, small(c["seq"], c["seqw"]), c["seqw"])):
+        fld.byte_len = w
+        fld.value = num
+    hr = H.PduHeader(d.PduType(c["pdu_type"]), d.SegmentMetadataFlag(c["seg_meta"]), c["dlen"], rconf)
+    cr = {**c, "src": small(c["src"], c["idw"]), "dst": small(c["dst"], c["idw"]), "seq": small(c["seq"], c["seqw"])}
+    eq(devs, "widths_redeclared_in_place_same_numbers.pack", bytes(hr.pack()), R.header(cr, c["pdu_type"], c["dir"], c["seg_meta"], c["dlen"]))
+    eq(devs, "widths_redeclared_in_place_same_numbers.header_len", hr.header_len, hl)
     # a decoded header's id / sequence-number objects are changed in place by their owner; decoding the same octets again gives the packed values again
     u3 = H.PduHeader.unpack(want)
     u3.pdu_conf.source_entity_id.value = (c["src"] + 1) % (1 << (8 * c["idw"]))
